@@ -12,6 +12,10 @@
 // Two observation points, both decoded with lib/wire (no miekg/dns in the
 // oracle): the bytes the upstream receives and the bytes Handle returns; plus
 // the cache's own /dump decoded by hand (gzip + length-prefixed protobuf).
+// Further dimensions: branch.go (context-copying plugins in front of option
+// forwarders), replace.go (several responses set on one context one after the
+// other), gen.go genClientAdditional (client additional sections with 0..4
+// records: OPTs in any position mixed with other RRs).
 package main
 
 import (
@@ -202,10 +206,11 @@ func runChain(desc *chainDesc) {
 func main() {
 	rep = evid.New("C15", "exploration")
 	caselog = evid.OpenCaseLog()
-	rep.SetRule("one case = one client query pushed through EntryHandler.Handle into a generated chain (random order/subset of forward_edns0opt{codes}, cache, lazy cache, has_resp->accept, ttl{fix|min-max}, ecs{preset}, ecs_handler{forward,send,preset,masks}, [qtype 16]->reject, terminal{guard|always}|real forward->loopback UDP, post-terminal ttl/forward_edns0opt/[qtype 28]->drop_resp; scripted upstream outcomes incl. error / no response / silence until the client context is cancelled, so the handler-made SERVFAIL and REFUSED replies are judged too) or of the branch family (prefer_ipv4|prefer_ipv6, fallback{always_standby on/off} over primary/secondary sub-sequences, lazy cache - each in front of forward_edns0opt / ecs_handler forward and a per-branch upstream whose reply names its origin (exchange, case, branch, qtype) in a TXT record and in every EDNS option, so the relayed reply is read off the client reply and every option in it is attributed; allowed-down = options of the relayed exchange of this very case), built through coremain's plugin registry + sequence.NewSequence rule text; client OPT generator: absent / sizes 0..65535 / DO / version 0-255 / Z bits / ext-rcode bits / option lists (ECS v4+v6, cookie, padding, NSID, EDE, keepalive, unknown codes, duplicates, empty); upstream reply generator: no OPT / OPT anywhere in the additional section with options, ext-rcode, version, Z / two OPTs (out-of-quantifier class: only cache-store, TTL-field and upstream-side assertions are judged for it); in a quarter of the chains a harness plugin appends an OPT with a distinctive TTL field in place to R().Extra right after the terminal (same in-scope assertions); names are reused inside a chain and the chain sleeps 1.1 s half-way so cache hits, aged hits, lazy hits and truncated replies occur. Non-trivial = a reply was produced and the client or the upstream had an OPT; distinct = chain shape x client OPT class x upstream OPT class x path(miss/hit/refetch/no-upstream) x truncated x transport")
+	rep.SetRule("one case = one client query pushed through EntryHandler.Handle into a generated chain (random order/subset of forward_edns0opt{codes}, cache, lazy cache, has_resp->accept, ttl{fix|min-max}, ecs{preset}, ecs_handler{forward,send,preset,masks}, [qtype 16]->reject, terminal{guard|always}|real forward->loopback UDP, post-terminal ttl/forward_edns0opt/[qtype 28]->drop_resp; scripted upstream outcomes incl. error / no response / silence until the client context is cancelled, so the handler-made SERVFAIL and REFUSED replies are judged too) or of the branch family (prefer_ipv4|prefer_ipv6, fallback{always_standby on/off} over primary/secondary sub-sequences, lazy cache - each in front of forward_edns0opt / ecs_handler forward and a per-branch upstream whose reply names its origin (exchange, case, branch, qtype) in a TXT record and in every EDNS option, so the relayed reply is read off the client reply and every option in it is attributed; allowed-down = options of the relayed exchange of this very case), built through coremain's plugin registry + sequence.NewSequence rule text; client OPT generator: absent / sizes 0..65535 / DO / version 0-255 / Z bits / ext-rcode bits / option lists (ECS v4+v6, cookie, padding, NSID, EDE, keepalive, unknown codes, duplicates, empty); upstream reply generator: no OPT / OPT anywhere in the additional section with options, ext-rcode, version, Z / two OPTs (out-of-quantifier class: only cache-store, TTL-field and upstream-side assertions are judged for it); in a quarter of the chains a harness plugin appends an OPT with a distinctive TTL field in place to R().Extra right after the terminal (same in-scope assertions); every tenth case of the generated chains replaces the client's additional section by a generated record list (0..4 records, each an OPT with its own size/DO/options or an A/TXT/unknown-type RR, any order): all OPTs of the list count as the client's EDNS0 for the upstream-side assertions, the reply-side assertions apply when the list holds at most one OPT (several OPTs: out of the quantifier, only what an upstream receives is judged); replace family: 2-4 responders run one after the other on ONE context (harness upstreams that always query and reply with origin-tagged options / without OPT / error / no response, black_hole, reject, arbitrary, hosts, drop_resp, a cache around the remaining steps; each optionally behind has_resp / !has_resp / qtype matchers) behind forward_edns0opt [+ ecs_handler forward] and optionally a second forward_edns0opt between two steps, same attribution oracle as the branch family (allowed-down = options of the exchange the reply relays, read off its origin record; a replaced or dropped upstream reply contributes nothing); names are reused inside a chain and the chain sleeps 1.1 s half-way so cache hits, aged hits, lazy hits and truncated replies occur. Non-trivial = a reply was produced and the client or the upstream had an OPT; distinct = chain shape x client OPT class x upstream OPT class x path(miss/hit/refetch/no-upstream) x truncated x transport")
 	rep.Assume("oracle decodes all observed bytes with lib/wire and the dump with compress/gzip + protowire; miekg/dns is used only where mosdns' own servers/forward use it (Unpack of the client query / upstream reply)")
 	rep.Assume("'explicitly forwarded' is derived from the generated chain description: codes named by forward_edns0opt / ecs_handler forward before the terminal (upwards) or anywhere in the chain (downwards); ECS generated by ecs / ecs_handler preset|send is recomputed independently from preset, masks and client address")
 	rep.Assume("replies produced while a surplus OPT sat in R() (two-OPT upstream reply, or the harness $inject plugin) are not judged for OPT count / DO mirror / option sets: query_context documents that R() carries no OPT and pops exactly one; they are judged for: nothing stored in the cache contains an OPT, no OPT TTL field is rewritten by ttl / cache ageing / truncation")
+	rep.Assume("a client query with several OPT records is outside 'exactly one OPT iff the client's query had one': its reply (if any) is not judged; 'the query sent upstream always carries exactly one fresh OPT and none of the client's EDNS options unless forwarded' is judged for it like for any other query (HEAD drops such queries in the entry handler, so no upstream sees them)")
 	rep.Assume("DO on the upstream OPT and the UDP size in the reply OPT are not judged (the statement does not fix them); an upstream extended rcode may appear in the reply OPT (it is the rcode, not an option)")
 
 	workers := 32
